@@ -40,9 +40,9 @@ Proof.
   destruct (store_get id (docs c0)) eqn:Hg.
   { fin H. split; [assumption|split; [discriminate|auto]]. }
   set (data := patch (VDoc fs1)) in H.
-  set (c2 := with_docs c0 (docs c0 ++ [(id, data)])) in H.
+  set (c2 := with_docs_w c0 (docs c0 ++ [(id, data)])) in H.
   assert (HI2 : Inv c2).
-  { apply Inv_with_docs; [exact HI0|]. apply knd_app_one; [exact (proj2 HI0)|exact Hg]. }
+  { apply Inv_with_docs_w; [exact HI0|]. apply knd_app_one; [exact (proj2 HI0)|exact Hg]. }
   destruct (ensure_uniques c2 data) as [touched|e].
   - rewrite (expire_if_no_ttl touched c2 (proj1 HI2)) in H. fin H.
     split; [exact HI2|]. split; [|auto].
@@ -95,9 +95,9 @@ Proof.
     destruct multi; [apply IH; exact HI|exact HI]. }
   match goal with |- context [if negb ?b then _ else _] => destruct (negb b) end; [exact HI|].
   destruct (match d with VDoc fs => assoc "_id" fs | _ => None end); [|exact HI].
-  set (c1 := with_docs c (store_set k d' (docs c))).
+  set (c1 := with_docs_w c (store_set k d' (docs c))).
   assert (HI1 : Inv c1).
-  { apply Inv_with_docs; [exact HI|]. apply knd_store_set. exact (proj2 HI). }
+  { apply Inv_with_docs_w; [exact HI|]. apply knd_store_set. exact (proj2 HI). }
   destruct (ensure_uniques c1 d') as [touched|e].
   - rewrite (expire_if_no_ttl touched c1 (proj1 HI1)).
     destruct multi; [apply IH; exact HI1|exact HI1].
